@@ -57,6 +57,7 @@ func devMain(args []string) {
 	qt := fs.Int("qt", 20000, "per-query timeout ms")
 	maxPaths := fs.Int("maxpaths", 0, "")
 	replay := fs.Bool("replay", false, "replay witnesses / counterexamples natively")
+	tapeS := fs.String("tape", "", "run on these concrete input values (comma separated)")
 	fs.Parse(args)
 	t0 := time.Now()
 	l, err := loadRepo()
@@ -65,6 +66,13 @@ func devMain(args []string) {
 		os.Exit(3)
 	}
 	fmt.Println("load+ssa", time.Since(t0).Round(time.Millisecond))
+	if *tapeS != "" {
+		concreteTape = []uint64{}
+		for _, f := range strings.Split(*tapeS, ",") {
+			v, _ := strconv.ParseUint(strings.TrimSpace(f), 10, 64)
+			concreteTape = append(concreteTape, v)
+		}
+	}
 	in := &Instance{Pkg: *pkg, Func: *fn, Params: parseParams(*ps), MaxPaths: *maxPaths}
 	if os.Getenv("SYMGO_PROF") != "" {
 		profSteps = map[*ssa.Function]int{}
